@@ -88,8 +88,8 @@ def encode(cls, vals):
         return [], type(e).__name__
 
 
-def rand_part(rng, rx, batched, ver):
-    if rng.random() < 0.1:
+def rand_part(rng, rx, batched, ver, mod=None):
+    if mod is None and rng.random() < 0.1:
         # degenerate content: every field zero and an all-zero burst (octets that look like padding), or
         # every field at its other end
         z = rng.random() < 0.7
@@ -105,8 +105,9 @@ def rand_part(rng, rx, batched, ver):
             p["ver"] = 2
             p["fn"] = 0 if z else 2 ** 31 - 1
         return p
-    mod = rng.choice(sorted(MODLEN))
-    nope = 1 if rng.random() < 0.15 else 0
+    forced = mod is not None
+    mod = rng.choice(sorted(MODLEN)) if mod is None else mod
+    nope = 1 if (rng.random() < 0.15 and not forced) else 0
     if nope and rng.random() < 0.5:
         mod = rng.randrange(16)          # the modulation bits of a NOPE part are meaningless, any value
     n = MODLEN.get(mod, 0) * GB
@@ -149,6 +150,11 @@ def rand_vals(rng, cls):
         p.update(ver=1, fn=fn, tn=tn)
         return p
     rx = cls == "v2Rx"
+    if rng.random() < 0.05:
+        # the longest datagram there is: nine parts (the first and eight batched ones) of the longest burst
+        p = rand_part(rng, rx, False, 2, mod=rng.choice([10, 11]))
+        p["bpdu"] = [rand_part(rng, rx, True, 2, mod=rng.choice([10, 11])) for _ in range(8)]
+        return p
     p = rand_part(rng, rx, False, 2)
     p["bpdu"] = [rand_part(rng, rx, True, 2) for _ in range(rng.choice([0, 0, 1, 2, 3, 8, rng.randint(0, 8)]))]
     return p
